@@ -74,11 +74,16 @@ def run(ctx, broken):
     n1 = 24 if ctx.tier == "quick" else 240
     n2 = 45 if ctx.tier == "quick" else 450
     cs = [mulgen_case(rng, i) for i in range(n1)] + [digits_case(rng, i) for i in range(n2)]
+    # fixed-base accumulation rows whose identity components cancel pairwise (a digit outside {-1,0,1} compensated in the
+    # helper wire / next accumulator, ...): see props/c05.py cancel_case
+    from props.c05 import cancel_cases
+    cs += cancel_cases(rng, ("fixed",), 1 if ctx.tier == "quick" else 8)
     r.run(cs)
     st = r.report(broken)
     st["rule"] = ("generators {standard, random prime-order, Z-scaled}; scalar witnesses {0,1,2,r_J-1,r_J,r_J+1,2^252-1,2^252,"
                   "random<r_J,r-1,random}; digit vectors through the seam: honest NAF, binary, digits of s+r, s-r, s+r_J, a digit 2, "
-                  "non-canonical scalar witness, non-zero leading digits, one digit off. Each case: layout/witness hashes impl vs "
+                  "non-canonical scalar witness, non-zero leading digits, one digit off; single fixed-base rows whose components cancel pairwise "
+                  "(digit 2/3/-2/5 compensated by the xy helper or the next accumulator). Each case: layout/witness hashes impl vs "
                   "model, returned point vs [s]G (Python oracle), prove+verify vs model sysSat and vs 'canonical s and digits encode "
                   "s with zero leading block' (Python oracle).")
     return st
